@@ -63,6 +63,7 @@ def field(obj) -> Dict[str, Any]:
         "pd": pd_kind(obj.dtype),
         "cells": [aval(x) for x in obj.tolist()] if str(obj.dtype) != "object" else [aval(x) for x in obj.to_numpy(dtype=object)],
         "idx": index(obj.index),
+        "idxpd": pd_kind(obj.index.dtype) if not hasattr(obj.index, "levels") else "multi",
     }
 
 
@@ -80,7 +81,8 @@ def frame(df) -> Dict[str, Any]:
         s = df.iloc[:, i]
         cols.append({"name": aval(c), "pd": pd_kind(s.dtype),
                      "cells": [aval(x) for x in s.to_numpy(dtype=object)]})
-    return {"cols": cols, "idx": index(df.index)}
+    return {"cols": cols, "idx": index(df.index),
+            "idxpd": pd_kind(df.index.dtype) if not hasattr(df.index, "levels") else "multi"}
 
 
 def snapshot(obj) -> Any:
